@@ -16,9 +16,21 @@ import time
 import z3
 
 
+def _note_raised(exc):
+    """Twisted's Deferred machinery (and any bare `except:`) turns even a BaseException raised inside a callback into a Failure, i.e. swallows
+    it.  Every control exception of the engine therefore registers itself on the running engine when it is created; explore() re-raises the
+    first one at the end of the path if it did not arrive by itself."""
+    e = ENG
+    if e is not None and getattr(e, "raised", None) is None:
+        e.raised = exc
+
+
 class Escape(BaseException):
     """A symbolic value reached code that cannot handle it (C function, hash, ...).
     BaseException so that `except Exception` in the code under test cannot swallow it."""
+    def __init__(self, *a):
+        BaseException.__init__(self, *a)
+        _note_raised(self)
 
 
 _PROXY_NAMES = ("SymEnum", "SymStr", "SymBytes", "SymInt", "SymBool", "SymRope", "SymReal", "HexView", "_Stand", "SymPath")
@@ -39,10 +51,16 @@ def check_leak(e):
 
 class Inconclusive(BaseException):
     """solver said unknown / resource bound hit"""
+    def __init__(self, *a):
+        BaseException.__init__(self, *a)
+        _note_raised(self)
 
 
 class _Abort(BaseException):
     """path is infeasible (assume() failed)"""
+    def __init__(self, *a):
+        BaseException.__init__(self, *a)
+        _note_raised(self)
 
 
 class Counterexample(BaseException):
@@ -290,6 +308,7 @@ def active():
 
 
 PATH_TIMEOUT_S = float(os.environ.get("SYMRUN_PATH_TIMEOUT", "300"))
+MAX_VIOLATING_PATHS = int(os.environ.get("SYMRUN_MAX_VIOLATING_PATHS", "150"))
 
 
 def _arm_path_timer():
@@ -333,6 +352,9 @@ def explore(fn, stats=None, seed=0, max_paths=None, on_path=None, deadline=None)
             _arm_path_timer()
             try:
                 res = fn()
+                swallowed = getattr(e, "raised", None)
+                if swallowed is not None:
+                    raise swallowed         # a control exception was raised on this path but swallowed on its way out (see _note_raised)
             except _Abort:
                 stats.aborted += 1
                 res = _Abort
@@ -358,6 +380,10 @@ def explore(fn, stats=None, seed=0, max_paths=None, on_path=None, deadline=None)
         for i in range(len(prefix), len(tr)):
             if tr[i][1]:
                 stack.append([(t[0], t[2]) for t in tr[:i]] + [(not tr[i][0], tr[i][2])])
+        if len(stats.violations) >= MAX_VIOLATING_PATHS:
+            # the property is already violated on this many paths of this job: the verdict cannot change, stop spending time on it
+            stats.outcomes["stopped-early-after-%d-violating-paths" % MAX_VIOLATING_PATHS] = 1
+            break
         if max_paths is not None and stats.paths + stats.aborted >= max_paths:
             if stack:
                 raise Inconclusive("path budget %d exhausted" % max_paths)
